@@ -456,7 +456,7 @@ func runC15(s c15Scen, c *ev.Case) *ev.Violation {
 			if !ok {
 				return
 			}
-			raw, _ := mw.Encode(&mw.Packet{Type: mw.SUBSCRIBE, PacketID: 1, Subs: []mw.SubReq{{Filter: "floodq", QoS: 1}}}, v)
+			raw, _ := mw.Encode(&mw.Packet{Type: mw.SUBSCRIBE, PacketID: 1, Subs: []mw.SubReq{{Filter: "$floodq/x", QoS: 1}}}, v)
 			if _, err := a.Write(raw); err != nil {
 				a.Close()
 				return
@@ -468,7 +468,7 @@ func runC15(s c15Scen, c *ev.Case) *ev.Violation {
 			}
 			big := make([]byte, 100*1024)
 			for k := 0; k < 14; k++ {
-				b.Srv.Publisher().Publish(&gmqtt.Message{Topic: "floodq", QoS: 1, Payload: big})
+				b.Srv.Publisher().Publish(&gmqtt.Message{Topic: "$floodq/x", QoS: 1, Payload: big})
 			}
 			time.Sleep(30 * time.Millisecond)
 			a.Close() // killed without having read or acknowledged anything
@@ -509,7 +509,7 @@ func runC15(s c15Scen, c *ev.Case) *ev.Violation {
 					report(ev.Violf("C15.api-blocked", "reading the statistics did not return within %v\n%s", c15Wait, brokerGoroutines()).With("api", "stats_poll"))
 					return
 				}
-				time.Sleep(50 * time.Microsecond)
+				time.Sleep(500 * time.Microsecond)
 			}
 		}()
 	}
